@@ -302,6 +302,25 @@ class Gen:
         n2 = r.choice([x for x in free if x != n1] or ["zz8"])
         pws = [p for p in (self.server_pw, self.cfg_users.get("reg")) if p] + ["wrong"]
         k = r.choice(["overtaken", "overtaken", "taken_then_user", "pass_twice", "user_twice", "cap_mid"])
+        if self.max_conns and r.random() < 0.5:
+            # connection slots: fill up to the limit, be refused, free a slot, connect again - a refusal uses up nothing
+            self.conns[c]["live"] = True
+            opened = [c]
+            for _ in range(self.max_conns + r.choice([1, 2])):
+                d = self.new_conn(limit=40)
+                if d is not None:
+                    opened.append(d)
+            for _ in range(r.choice([1, 2])):
+                victims = [x for x, v in self.conns.items() if v["live"]]
+                if victims:
+                    v = r.choice(victims)
+                    self.ops.append("%s %d" % (r.choice(["eof", "reset"]), v)); self.conns[v]["live"] = False
+                d = self.new_conn(limit=40)
+                if d is not None:
+                    L(d, "NICK " + n2); L(d, "USER s 0 * :slot"); L(d, "LUSERS")
+                    self.conns[d]["nick"] = n2; self.conns[d]["done"] = True
+                    n2 = n2 + "_"
+            return
         if k == "overtaken":
             # NICK accepted while free, somebody else registers it first, completion is refused (433), then the
             # connection names ANOTHER user (a configured one with its own password <-> an ordinary one under the
